@@ -329,6 +329,19 @@ def confirm(ob: Dict[str, Any]) -> Tuple[Optional[Dict[str, Any]], str]:
             cands.append((rule2, r, "bounded-search (node between neighbours)"))
     except Exception:
         pass
+    try:
+        # listings planted from the rule itself (occurrences, near misses), and the node followed by a capture
+        # definition and its reuse (group numbering)
+        from vf import sweeps
+        rnd = random.Random(7)
+        rule3 = conc.rule()
+        if conc.level == "INST":
+            rule3 = dict(rule3, pattern=list(rule3["pattern"]) + [{"push": ["&r"]}, {"pop": ["&r"]}])
+        for ru in (rule, rule3):
+            for _ in range(150):
+                cands.append((ru, sweeps.gen_records(rnd, ru), "bounded-search (listing planted from the rule)"))
+    except Exception:
+        pass
     jobs = [{"rule": ru, "insts": insts_of(r), "mode": "all"} for (ru, r, _h) in cands]
     try:
         res = run_real(jobs)
